@@ -3,6 +3,7 @@ lab_of() {
   case "$1" in
     C01|C02|C03|C11|C14|C15) echo lab_session ;;
     C16|C14x) echo lab_inject ;;
+    C11c) echo lab_shardmgr ;;
     C04) echo lab_chunker ;;
     C06) echo lab_hash ;;
     C07|C08) echo lab_xorb ;;
